@@ -263,6 +263,21 @@ type Op struct {
 	Form     string    `json:"form,omitempty"`
 }
 
+// Fork: a child handle is derived from the program's handle with any mix of
+// Session options and (usually) a context of its own; the program's handle - the
+// parent - is used afterwards and must still carry its own context.
+type Fork struct {
+	At          string `json:"at"`   // bound: from the bound handle | inner: from the handle the operations run on
+	Ctx         string `json:"ctx"`  // own | own-dead (cancelled while the parent's lives) | inherit (no Context option)
+	Form        string `json:"form"` // session | withcontext
+	Initialized bool   `json:"init,omitempty"`
+	NewDB       bool   `json:"newdb,omitempty"`
+	PrepareStmt bool   `json:"prep,omitempty"`
+	SkipHooks   bool   `json:"skiphooks,omitempty"`
+	Use         string `json:"use"` // unused | before | after the parent's part
+	Op          string `json:"op"`  // what the child runs: create | count
+}
+
 type Case struct {
 	Prepare     string `json:"prepare"` // off | config | session-before | session-same | session-after | session-late
 	SkipTx      bool   `json:"skiptx,omitempty"`
@@ -278,6 +293,7 @@ type Case struct {
 	Dead        string `json:"dead"` // the dead context of the second half: cancelled | expired (deadline in the past)
 	Hook        string `json:"hook,omitempty"`
 	HookAt      string `json:"hookat,omitempty"`
+	Fork        *Fork  `json:"fork,omitempty"`
 	Ops         []Op   `json:"ops"`
 }
 
@@ -651,18 +667,82 @@ func bind(root *gorm.DB, c Case, ctx context.Context, other context.Context) *go
 	return db
 }
 
+// fk is the fork state of the running half (cases run one at a time).
+var fk struct {
+	rec   *recdrv.Recorder
+	ctx   context.Context // the child's own context in this half (nil: the child inherits)
+	spans []span
+}
+
+// span: the driver events with from < Seq <= to were made by the child handle.
+type span struct {
+	from, to int
+	err      error
+}
+
+func lastSeq() int {
+	evs := fk.rec.Events()
+	if len(evs) == 0 {
+		return 0
+	}
+	return evs[len(evs)-1].Seq
+}
+
+func forkChild(h *gorm.DB, f *Fork) *gorm.DB {
+	if f.Form == "withcontext" {
+		return h.WithContext(fk.ctx)
+	}
+	s := &gorm.Session{Initialized: f.Initialized, NewDB: f.NewDB, PrepareStmt: f.PrepareStmt, SkipHooks: f.SkipHooks}
+	if f.Ctx != "inherit" {
+		s.Context = fk.ctx
+	}
+	return h.Session(s)
+}
+
+func useChild(child *gorm.DB, f *Fork) {
+	from := lastSeq()
+	var err error
+	if f.Op == "create" {
+		err = child.Create(&Audit{Point: "child"}).Error
+	} else {
+		var n int64
+		err = child.Model(&Audit{}).Count(&n).Error
+	}
+	fk.spans = append(fk.spans, span{from: from, to: lastSeq(), err: err})
+}
+
+// withFork derives the child from h (when the case forks at this point), then
+// runs the parent's part on h; the child runs before or after it, or not at all.
+func withFork(h *gorm.DB, c Case, at string, parent func() error) error {
+	f := c.Fork
+	if f == nil || f.At != at {
+		return parent()
+	}
+	child := forkChild(h, f)
+	if f.Use == "before" {
+		useChild(child, f)
+	}
+	err := parent()
+	if f.Use == "after" && (err == nil || errors.Is(err, errBlock)) {
+		useChild(child, f)
+	}
+	return err
+}
+
 func sibling(h *gorm.DB) error { return h.Create(&Audit{Point: "sibling"}).Error }
 
 func runOps(h *gorm.DB, c Case) error {
 	if c.Prepare == "session-late" {
 		h = h.Session(&gorm.Session{PrepareStmt: true})
 	}
-	for _, o := range c.Ops {
-		if err := execOp(h, o); err != nil && !errors.Is(err, gorm.ErrRecordNotFound) {
-			return err
+	return withFork(h, c, "inner", func() error {
+		for _, o := range c.Ops {
+			if err := execOp(h, o); err != nil && !errors.Is(err, gorm.ErrRecordNotFound) {
+				return err
+			}
 		}
-	}
-	return nil
+		return nil
+	})
 }
 
 // runLevel runs the part of the program below nesting level lvl on handle h.
@@ -703,17 +783,33 @@ type errPanic struct{ v interface{} }
 
 func (e errPanic) Error() string { return fmt.Sprintf("panic: %v", e.v) }
 
-func runProgram(root *gorm.DB, c Case, ctx, other context.Context) (err error) {
+// runProgram runs the case under ctx; child is the forked handle's own context
+// (nil when there is no fork or the child inherits). It returns the program's
+// error and the spans of driver events made by the child.
+func runProgram(d *testdb.DB, c Case, ctx, other, child context.Context) (err error, spans []span) {
+	fk.rec, fk.ctx, fk.spans = d.Rec, child, nil
 	defer func() {
 		if r := recover(); r != nil {
 			err = errPanic{r}
 		}
+		spans = fk.spans
+		fk.rec, fk.ctx, fk.spans = nil, nil, nil
 	}()
-	err = runLevel(bind(root, c, ctx, other), c, 0)
+	h := bind(d.DB, c, ctx, other)
+	err = withFork(h, c, "bound", func() error { return runLevel(h, c, 0) })
 	if errors.Is(err, errBlock) {
-		return nil
+		err = nil
 	}
-	return err
+	return err, nil
+}
+
+func inSpan(spans []span, seq int) bool {
+	for _, sp := range spans {
+		if seq > sp.from && seq <= sp.to {
+			return true
+		}
+	}
+	return false
 }
 
 // ---- generators -----------------------------------------------------------------------------------------
@@ -989,6 +1085,23 @@ func genCase(rt *rapid.T) Case {
 	if c.Hook != "" {
 		c.HookAt = rapid.SampledFrom([]string{"before", "after", "all"}).Draw(rt, "hookat")
 	}
+	if rapid.Bool().Draw(rt, "fork") {
+		f := &Fork{}
+		f.At = rapid.SampledFrom([]string{"bound", "inner"}).Draw(rt, "fork.at")
+		f.Ctx = rapid.SampledFrom([]string{"own", "own-dead", "inherit"}).Draw(rt, "fork.ctx")
+		f.Form = "session"
+		if f.Ctx != "inherit" && rapid.IntRange(0, 3).Draw(rt, "fork.withcontext") == 0 {
+			f.Form = "withcontext"
+		} else {
+			f.Initialized = rapid.Bool().Draw(rt, "fork.initialized")
+			f.NewDB = rapid.Bool().Draw(rt, "fork.newdb")
+			f.PrepareStmt = rapid.IntRange(0, 2).Draw(rt, "fork.prepare") == 0
+			f.SkipHooks = rapid.IntRange(0, 2).Draw(rt, "fork.skiphooks") == 0
+		}
+		f.Use = rapid.SampledFrom([]string{"before", "unused", "after"}).Draw(rt, "fork.use")
+		f.Op = rapid.SampledFrom([]string{"create", "count"}).Draw(rt, "fork.op")
+		c.Fork = f
+	}
 	n := 1
 	if rapid.IntRange(0, 3).Draw(rt, "twoops") == 0 {
 		n = 2
@@ -1015,6 +1128,29 @@ func classes(c Case) []string {
 	}
 	if c.Warm {
 		set["prepare-cache:warmed-by-other-context"] = true
+	}
+	if f := c.Fork; f != nil {
+		set["fork:at-"+f.At] = true
+		set["fork:child-ctx-"+f.Ctx] = true
+		set["fork:"+f.Form] = true
+		set["fork:child-"+f.Use] = true
+		if f.Initialized {
+			set["fork:session-initialized"] = true
+			if f.Ctx != "inherit" {
+				set["fork:session-context+initialized"] = true
+			}
+		}
+		if f.NewDB {
+			set["fork:session-newdb"] = true
+		}
+		if f.PrepareStmt {
+			set["fork:session-preparestmt"] = true
+		}
+		if f.SkipHooks {
+			set["fork:session-skiphooks"] = true
+		}
+	} else {
+		set["fork:none"] = true
 	}
 	if c.Hook != "" {
 		set["hook:"+c.Hook+":"+c.HookAt] = true
@@ -1187,6 +1323,7 @@ func rowPrepareFails(c Case) bool {
 // (save-point statements aside) the operation issued under the live context.
 func checkCase(c Case) (msg string, stmts int, herr error) {
 	id := fmt.Sprintf("c18-%d", atomic.AddInt64(&caseSeq, 1))
+	childID := "child-" + id
 	hk.stmt, hk.at, hk.fired = c.Hook, c.HookAt, 0
 	defer func() { hk.stmt = "" }()
 
@@ -1199,6 +1336,55 @@ func checkCase(c Case) (msg string, stmts int, herr error) {
 	live, liveCancel := liveContext(c.Ctx, id)
 	defer liveCancel()
 	other := context.WithValue(context.Background(), markerKey{}, "other-"+id)
+	childAlive := context.WithValue(context.Background(), markerKey{}, childID)
+
+	// judgeChild checks the driver calls the forked child made in one half. childCtx is the
+	// child's own context (nil: it inherits the parent's), childDead whether that context
+	// was already cancelled, parentErr what a child that inherits a dead parent context must get.
+	judgeChild := func(half string, evs []recdrv.Event, spans []span, childCtx context.Context, childDead bool, parentErr error) string {
+		for _, sp := range spans {
+			n := 0
+			for _, e := range evs {
+				if !judged(e.Kind) || !(e.Seq > sp.from && e.Seq <= sp.to) {
+					continue
+				}
+				n++
+				if childDead || (childCtx == nil && parentErr != nil) {
+					return fmt.Sprintf("%s: the forked child handle's context is already done, yet its driver call %s happened (ctx marker %s)\n  driver events:\n%s",
+						half, e.String(), markerOf(e.Ctx), renderEvents(evs))
+				}
+				if childCtx != nil {
+					if e.Ctx == nil || e.Ctx.Value(markerKey{}) != interface{}(childID) {
+						return fmt.Sprintf("%s: driver call %s of the forked child handle received a context with marker %s, want the child's marker %s\n  driver events:\n%s",
+							half, e.String(), markerOf(e.Ctx), childID, renderEvents(evs))
+					}
+					if why := notCallers(e.Ctx, childCtx, false); why != "" {
+						return fmt.Sprintf("%s: driver call %s of the forked child handle received a context that %s\n  driver events:\n%s", half, e.String(), why, renderEvents(evs))
+					}
+				}
+				// a child that inherits is judged with the parent's events by the caller
+			}
+			switch {
+			case childDead:
+				if !errors.Is(sp.err, context.Canceled) {
+					return fmt.Sprintf("%s: the forked child handle has an already-cancelled context but its operation returned %v, want context.Canceled\n  driver events:\n%s", half, sp.err, renderEvents(evs))
+				}
+			case childCtx == nil && parentErr != nil:
+				if !errors.Is(sp.err, parentErr) {
+					return fmt.Sprintf("%s: the forked child handle inherits the parent's dead context but its operation returned %v, want %v\n  driver events:\n%s", half, sp.err, parentErr, renderEvents(evs))
+				}
+			default:
+				if sp.err != nil {
+					return fmt.Sprintf("%s: the forked child handle's context is alive but its operation returned %v (the parent's context: %s)\n  driver events:\n%s", half, sp.err, half, renderEvents(evs))
+				}
+				if n == 0 {
+					return fmt.Sprintf("%s: the forked child handle's operation made no driver call", half)
+				}
+			}
+		}
+		return ""
+	}
+	childInherits := c.Fork != nil && c.Fork.Ctx == "inherit"
 
 	cancelled := func() string {
 		if rowPrepareFails(c) && harness.OpenClass("C18", "row-prepare-fails") {
@@ -1207,15 +1393,21 @@ func checkCase(c Case) (msg string, stmts int, herr error) {
 		}
 		cctx, cancel, wantErr := deadContext(c.Dead, id)
 		defer cancel()
+		// the parent's context is dead: a forked child with a context of its own is alive
+		var childCtx context.Context
+		if c.Fork != nil && !childInherits {
+			childCtx = childAlive
+		}
 		d.Rec.Reset()
-		err := runProgram(d.DB, c, cctx, other)
+		err, spans := runProgram(d, c, cctx, other, childCtx)
 		evs := d.Rec.Events()
+		half := "parent context already " + c.Dead
 		for _, e := range evs {
 			// BEGIN is a statement too: database/sql refuses BeginTx/Exec/Query on a context that is
 			// already done before calling the driver, so any such event means another context was passed
 			// ... and a PREPARE as well (database/sql checks the context before it hands the
 			// text to the driver), so a preparation that still happens used another context
-			if e.Kind == recdrv.Exec || e.Kind == recdrv.Query || e.Kind == recdrv.Begin || e.Kind == recdrv.Prepare {
+			if judged(e.Kind) && !inSpan(spans, e.Seq) {
 				return fmt.Sprintf("with an already-%s context the driver call %s still happened (ctx marker %s, returned error: %v)\n  driver events:\n%s",
 					c.Dead, e.String(), markerOf(e.Ctx), err, renderEvents(evs))
 			}
@@ -1227,7 +1419,7 @@ func checkCase(c Case) (msg string, stmts int, herr error) {
 		if !errors.Is(err, wantErr) {
 			return fmt.Sprintf("with an already-%s context the operation returned %v, want an error wrapping %v\n  driver events:\n%s", c.Dead, err, wantErr, renderEvents(evs))
 		}
-		return ""
+		return judgeChild(half, evs, spans, childCtx, false, wantErr)
 	}
 
 	if c.CancelFirst {
@@ -1238,7 +1430,11 @@ func checkCase(c Case) (msg string, stmts int, herr error) {
 
 	if c.Warm {
 		warm := context.WithValue(context.Background(), markerKey{}, "warm-"+id)
-		if err := runProgram(d.DB, c, warm, other); err != nil {
+		var wchild context.Context
+		if c.Fork != nil && !childInherits {
+			wchild = context.WithValue(context.Background(), markerKey{}, "warm-"+childID)
+		}
+		if err, _ := runProgram(d, c, warm, other, wchild); err != nil {
 			return "", 0, fmt.Errorf("warm-up run failed: %w", err)
 		}
 		if err := reseed(d); err != nil {
@@ -1246,8 +1442,19 @@ func checkCase(c Case) (msg string, stmts int, herr error) {
 		}
 	}
 
+	// live half: the parent's context is alive, the child's own context alive or already cancelled
+	var childCtx context.Context
+	childDead := false
+	if c.Fork != nil && !childInherits {
+		childCtx = childAlive
+		if c.Fork.Ctx == "own-dead" {
+			cc, ccancel := context.WithCancel(childAlive)
+			ccancel()
+			childCtx, childDead = cc, true
+		}
+	}
 	d.Rec.Reset()
-	err = runProgram(d.DB, c, live, other)
+	err, spans := runProgram(d, c, live, other, childCtx)
 	evs := d.Rec.Events()
 	// the operation has finished: cancel the caller's context, every context a driver call received must follow
 	liveCancel()
@@ -1255,7 +1462,10 @@ func checkCase(c Case) (msg string, stmts int, herr error) {
 		if !judged(e.Kind) {
 			continue
 		}
-		if e.Kind == recdrv.Exec || e.Kind == recdrv.Query {
+		if inSpan(spans, e.Seq) && !childInherits {
+			continue // the child's own calls: judged below
+		}
+		if (e.Kind == recdrv.Exec || e.Kind == recdrv.Query) && !inSpan(spans, e.Seq) {
 			if !isSavepoint(e.Text) {
 				stmts++
 			}
@@ -1270,7 +1480,13 @@ func checkCase(c Case) (msg string, stmts int, herr error) {
 		}
 	}
 	if err != nil {
+		if errors.Is(err, context.Canceled) || errors.Is(err, context.DeadlineExceeded) {
+			return fmt.Sprintf("the caller's context is alive but the operation returned %v: some call was made under another, dead context\n  driver events:\n%s", err, renderEvents(evs)), stmts, nil
+		}
 		return "", stmts, fmt.Errorf("operation failed under a live context: %w\n  driver events:\n%s", err, renderEvents(evs))
+	}
+	if m := judgeChild("parent context alive", evs, spans, childCtx, childDead, nil); m != "" {
+		return m, stmts, nil
 	}
 
 	if !c.CancelFirst {
@@ -1283,6 +1499,7 @@ func checkCase(c Case) (msg string, stmts int, herr error) {
 
 const rule = "C18: a program = handle bound by WithContext / Session{Context} (also re-bound over another context, derived by Session{} / Session{NewDB}), " +
 	"PrepareStmt off / Config / Session{PrepareStmt} before, with, after the binding or on the innermost handle (optionally with the statement cache filled by the same program under another context), " +
+	"optionally a child handle forked from the bound or the innermost handle by Session{Context, Initialized, NewDB, PrepareStmt, SkipHooks in any mix} / WithContext with a context of its own (alive, or cancelled while the parent's lives; alive while the parent's is dead) or inheriting, used before / after the parent's part or not at all, each handle judged against its own context, " +
 	"the caller's context a plain value context or one with its own cancellation / timeout / far deadline, SkipDefaultTransaction on/off, none / Transaction blocks / manual Begin at depth 0..2 with levels committing or rolling back, hooks issuing a statement through their tx, " +
 	"and 1-2 operations out of create / create-slice / CreateInBatches / Updates / Model.Update / Save (update, fallback, new, slice) with association graphs (belongs-to, has-one, has-many, nested, many2many, polymorphic; FullSaveAssociations), " +
 	"Delete with Select(associations), Find/First/Take/Last with Preload (single, nested, clause.Associations, conditions) and relation Joins, Association(name).Find/Count/Append/Replace/Delete/Clear, " +
@@ -1402,7 +1619,7 @@ func TestC18WitnessRowPrepareCancelled(t *testing.T) {
 		ctx, cancel := context.WithCancel(context.Background())
 		cancel()
 		d.Rec.Reset()
-		err = runProgram(d.DB, c, ctx, context.Background())
+		err, _ = runProgram(d, c, ctx, context.Background(), nil)
 		if n := len(d.Rec.Statements()); n != 0 {
 			t.Errorf("C18 violated: %d statements reached the driver under a cancelled context", n)
 		}
